@@ -66,10 +66,10 @@ def evaluate(patch):
 def harvest(src):
     pid = os.path.basename(src.rstrip('/'))
     out = os.path.join(src, 'out')
-    for x in ('A', 'B'):
+    for x in ('A', 'B', 'C', 'D'):
         patch, demo, meta = (os.path.join(out, '%s%s' % (x, s)) for s in ('.diff', '_demo.py', '_meta.json'))
         if not (os.path.exists(patch) and os.path.exists(demo)):
-            print(pid, x, 'missing files'); continue
+            continue
         v = verify(patch, demo)
         if not (v['applies'] and v['demo_exit_original'] == 0 and v['demo_exit_changed'] != 0):
             # demos that hard-wire their worktree path (e.g. CLI subprocess demos): verify in the worktree itself
